@@ -28,11 +28,20 @@ try:
             print(pid, "patch does not apply:", out[:300])
             continue
         t0 = time.time()
-        chk = pid[:3]
-        rc, out = sh("timeout 1800 bin/check %s --tier quick" % chk, extra={"VERIF_REPO": MUT})
-        lines = [l for l in out.split("\n") if l.startswith("VIOLATION") or l.startswith("KNOWN") or l.startswith(chk + " ")]
-        caught = rc != 0 and any(l.startswith("VIOLATION") for l in lines)
-        print(pid, "CAUGHT" if caught else "MISSED", [l[:200] for l in lines])
+        # the check of the seed's own property, unless seeded/<id>/CHECK names the check(s) that own the changed code
+        # (a seed written against one property may sit in code another property's check is responsible for)
+        chks = [pid[:3]]
+        cf = "/verif/seeded/%s/CHECK" % pid
+        if not patch and os.path.exists(cf):
+            chks = open(cf).read().split()
+        caught = False
+        for chk in chks:
+            rc, out = sh("timeout 1800 bin/check %s --tier quick" % chk, extra={"VERIF_REPO": MUT})
+            lines = [l for l in out.split("\n") if l.startswith("VIOLATION") or l.startswith("KNOWN") or l.startswith(chk + " ")]
+            caught = rc != 0 and any(l.startswith("VIOLATION") for l in lines)
+            if caught:
+                break
+        print(pid, ("CAUGHT by " + chk) if caught else "MISSED", [l[:200] for l in lines])
         if not patch:
             mp = "/verif/seeded/%s/meta.json" % pid
             m = json.load(open(mp)) if os.path.exists(mp) else {"property": pid}
